@@ -405,7 +405,7 @@ def c10(run):
     run.validate("regconc", t, "Trace_regconc", label="(V) free-running lookups / registrations, hook events in sequence order", chunk=3000, group_on="reset")
     t = run.record("regconc", "mix", n=T(run, 9, 150))
     run.validate("crypto", t, "Trace_crypto", label="(V) concurrent MIC / encryption / decrypt-then-decode on distinct values vs the sequential specification", chunk=T(run, 60, 200), prefix="C0")
-    t = run.record("maccmd", "shared", n=T(run, 2, 40))
+    t = run.record("maccmd", "shared", n=T(run, 3, 40))
     run.validate("maccmd", t, "Trace_maccmd", label="(V) six goroutines decoding the SAME source bytes: every result against the specification, source untouched", chunk=50000, prefix="C0")
     run.require_kinds("own/own", "own/reuse", "own/bandiso", "regconc/hook", "crypto/setmic|crypto/crash", "crypto/method|crypto/crash")
     run.rc = run.finish(assumptions=["registry hooks (build tag verif) observe the lock state with TryLock/TryRLock probes: exact under gated replay, one-sided in free-running recordings",
